@@ -442,6 +442,64 @@ def reused_request_maps(ctx):
                 ctx.count("requests through one reused, edited map")
 
 
+def constructor_forms(ctx):
+    """One quantity reached through every way of asking for it - the interning request, the constructor with (category, unit),
+    the constructor and the requests with a one-entry composing map - is one value: pairwise ==, not !=, equal hashes, one
+    element of a set. The same for the quantity without any unit, plain and with a caption (which is another value)."""
+    from barril.units import ObtainQuantity, Quantity, Scalar
+
+    db = table.build("posc")
+    with table.pushed(db):
+        groups = []
+        for u, c, cap in (("m", "length", None), ("cm", "depth", None), ("m", "length", "a caption"), ("degC", "temperature", None), ("1000ft3/d", "volume flow rate", None), ("s", "time", "")):
+            od = lambda: OrderedDict([(c, [u, 1])])  # noqa: E731
+            forms = [
+                ("ObtainQuantity(u,c,caption)", lambda: ObtainQuantity(u, c, cap)), ("Quantity(c,u,caption)", lambda: Quantity(c, u, cap)), ("Quantity(map,None,caption)", lambda: Quantity(od(), None, cap)),
+                ("ObtainQuantity(map,None,caption)", lambda: ObtainQuantity(od(), None, cap)), ("CreateDerived(map,caption)", lambda: Quantity.CreateDerived(od(), cap)),
+                ("ObtainQuantity([(u,1)],[c],caption)", lambda: ObtainQuantity([(u, 1)], [c], cap)), ("Scalar(c,x,u).GetQuantity()", (lambda: Scalar(c, 1.0, u).GetQuantity()) if not cap else None),
+            ]  # fmt: skip
+            groups.append(("%s %s %r" % (u, c, cap), cap or "", [(n, f) for n, f in forms if f is not None]))
+        empties = [("CreateEmpty()", lambda: Quantity.CreateEmpty()), ("ObtainQuantity({})", lambda: ObtainQuantity(OrderedDict())), ("CreateDerived({})", lambda: Quantity.CreateDerived(OrderedDict())),
+                   ("units that cancel", lambda: (Scalar(6.0, "m") / Scalar(3.0, "m")).GetQuantity()), ("empty.MakeCopy({})", lambda: Quantity.CreateEmpty().MakeCopy({}))]  # fmt: skip
+        captioned = [("CreateDerived({}, caption)", lambda: Quantity.CreateDerived(OrderedDict(), "no unit, but a caption")), ("ObtainQuantity({}, None, caption)", lambda: ObtainQuantity(OrderedDict(), None, "no unit, but a caption")),
+                     ("Quantity({}, None, caption)", lambda: Quantity(OrderedDict(), None, "no unit, but a caption"))]  # fmt: skip
+        groups.append(("no unit", "", empties))
+        groups.append(("no unit, captioned", "no unit, but a caption", captioned))
+        built = {}
+        for gname, cap, forms in groups:
+            objs = []
+            for n, f in forms:
+                ctx.ev()
+                try:
+                    objs.append((n, f()))
+                except Exception as e:
+                    ctx.violation("constructor-forms:raised:%s:%s" % (n, type(e).__name__), {"quantity": gname, "error": str(e)[:160]})
+            built[gname] = objs
+            for (na, a), (nb, b) in itertools.combinations(objs, 2):
+                ctx.ev()
+                ctx.nt(("constructor forms", gname, na, nb))
+                bad = []
+                if not a == b or not b == a:
+                    bad.append("not ==")
+                if a != b:
+                    bad.append("!=")
+                if hash(a) != hash(b):
+                    bad.append("hashes differ")
+                if len({a, b}) != 1 or {a: 1}.get(b) != 1:
+                    bad.append("two set elements / dict lookup fails")
+                if (a.GetUnknownCaption() or "") != cap or (b.GetUnknownCaption() or "") != cap:
+                    bad.append("caption is %r / %r" % (a.GetUnknownCaption(), b.GetUnknownCaption()))
+                if bad:
+                    ctx.violation("constructor-forms:one-quantity-two-values", {"quantity": gname, "a": na, "b": nb, "problems": bad, "repr": [repr(a), repr(b)]}, replay={"constructor_forms": True})
+        # the captioned unit-less quantity is another value than the plain one
+        for (na, a) in built.get("no unit", []):
+            for (nb, b) in built.get("no unit, captioned", []):
+                ctx.ev()
+                if a == b or not (a != b):
+                    ctx.violation("constructor-forms:two-quantities-one-value", {"a": na, "b": nb, "repr": [repr(a), repr(b)], "captions": [a.GetUnknownCaption(), b.GetUnknownCaption()]}, replay={"constructor_forms": True})
+        ctx.count("quantities reached through every way of asking", len(groups))
+
+
 def pickles_from_elsewhere(ctx):
     """A pickled quantity (or value object) is read where nothing is interned for it: after the database's interned
     quantities were dropped, for a quantity that was constructed directly and never interned, and in another process.
@@ -557,6 +615,7 @@ def run(ctx):
     request_orders(ctx, ctx.rng("orders"), 6 if ctx.tier == "quick" else 120)
     if ctx.shard == 0:
         reused_request_maps(ctx)
+        constructor_forms(ctx)
         pickles_from_elsewhere(ctx)
     ctx.count("fingerprint comparisons", mon.n_checks)
     ctx.notes["monitor"] = {"fingerprint_and_pair_checks": mon.n_checks}
@@ -573,6 +632,8 @@ def replay(ctx, d):
     mon.install()
     if d.get("reused_maps"):
         return reused_request_maps(ctx)
+    if d.get("constructor_forms"):
+        return constructor_forms(ctx)
     if d.get("pickles_elsewhere"):
         return pickles_from_elsewhere(ctx)
 
